@@ -733,6 +733,8 @@ type c13Conn struct {
 	answered    int
 	deadPings   int // PINGREQ write attempts after the transport was closed
 	connected   bool
+	connackAt   time.Time
+	pingTimes   []int64 // arrival of each PINGREQ, microseconds since the CONNACK was sent
 	lastAnswer  time.Time
 	firstClose  time.Time
 	clientClose int // Close calls by the client before the peer dropped the connection
@@ -775,6 +777,7 @@ type c13Broker struct {
 	conns  []*c13Conn
 	ev     chan c13Ev
 	answer func(c *c13Conn, n int) bool // called with c.mu held; n = number of this PINGREQ on c
+	delay  time.Duration                // the answer is sent this much later (0: inside the write)
 }
 
 func newC13Broker(answer func(c *c13Conn, n int) bool) *c13Broker {
@@ -805,6 +808,7 @@ func (b *c13Broker) onWrite(sc *c13Conn, pkt []byte) error {
 		sc.mu.Lock()
 		sc.connected = true
 		sc.lastAnswer = time.Now()
+		sc.connackAt = sc.lastAnswer
 		sc.mu.Unlock()
 		sc.send(connackOK)
 		b.emit(c13Ev{"connect", sc.idx})
@@ -818,10 +822,22 @@ func (b *c13Broker) onWrite(sc *c13Conn, pkt []byte) error {
 		}
 		sc.mu.Lock()
 		sc.pings++
+		sc.pingTimes = append(sc.pingTimes, time.Since(sc.connackAt).Microseconds())
 		if b.answer(sc, sc.pings) {
-			sc.answered++
-			sc.lastAnswer = time.Now()
-			sc.send([]byte{0xD0, 0})
+			if b.delay > 0 {
+				time.AfterFunc(b.delay, func() { // a slow but living peer
+					sc.mu.Lock()
+					sc.answered++
+					sc.lastAnswer = time.Now()
+					sc.mu.Unlock()
+					sc.send([]byte{0xD0, 0})
+					b.emit(c13Ev{"answer", sc.idx})
+				})
+			} else {
+				sc.answered++
+				sc.lastAnswer = time.Now()
+				sc.send([]byte{0xD0, 0})
+			}
 		}
 		sc.mu.Unlock()
 		b.emit(c13Ev{"ping", sc.idx})
@@ -1084,6 +1100,65 @@ func c13SysDrop(interval, timeout time.Duration, k int) (c13SysRes, error) {
 			"dials": dials, "client_closed_conn2": closed2, "conn2_Err": err2Desc, "pingreqs_on_conn2": pings2,
 			"stale_ping_attempts_on_conn1": dead1},
 	}, nil
+}
+
+// PingInterval and Timeout differ; the broker answers every PINGREQ after [delay] (< timeout).
+// The scenario ends when [need] pings were answered, or the client closed / replaced the
+// connection, or [limit] passed; a miss is believed only if [tries] serial tries miss.
+func c13SysPeer(interval, timeout, delay time.Duration, need int, limit time.Duration, tries int) (c13SysRes, error) {
+	var res c13SysRes
+	for try := 1; try <= tries; try++ {
+		b := newC13Broker(func(c *c13Conn, n int) bool { return true })
+		b.delay = delay
+		cli, err := c13NewReconn(b, interval, timeout)
+		if err != nil {
+			return c13SysRes{}, err
+		}
+		ctx, cancel := ctxTimeout(c13SysTO)
+		if _, err := cli.Connect(ctx, "c13"); err != nil {
+			cancel()
+			return c13SysRes{}, fmt.Errorf("c13 sys: first connect: %v", err)
+		}
+		c1 := b.conn(b.dials())
+		first := c1.idx
+		b.waitEv(limit, func() bool {
+			c1.mu.Lock()
+			defer c1.mu.Unlock()
+			return c1.answered >= need || c1.clientClose > 0 || b.dials() > first
+		})
+		c1.mu.Lock()
+		answered, closes := c1.answered, c1.clientClose
+		times := append([]int64{}, c1.pingTimes...)
+		c1.mu.Unlock()
+		dials := b.dials() - first + 1
+		if closes > 0 {
+			select {
+			case <-c1.base.Done():
+			case <-time.After(2 * time.Second):
+			}
+		}
+		errCoq, errDesc := c13ErrOf(c1.base)
+		ctxD, cancelD := ctxTimeout(5 * time.Second)
+		cli.Disconnect(ctxD)
+		cancelD()
+		cancel()
+		var ts []string
+		for _, t := range times {
+			ts = append(ts, fmt.Sprint(t))
+		}
+		res = c13SysRes{
+			Coq: fmt.Sprintf("SysPeer %d %d %d %s %s %s %s (%s) %s", interval.Microseconds(), timeout.Microseconds(), delay.Microseconds(),
+				cNat(need), cNat(answered), cNat(dials), cNat(closes), errCoq, cListInline(ts)),
+			Desc: map[string]interface{}{"scenario": "PingInterval != Timeout; broker answers every PINGREQ after a delay below the timeout",
+				"interval_us": interval.Microseconds(), "timeout_us": timeout.Microseconds(), "answer_delay_us": delay.Microseconds(),
+				"answered_pings_needed": need, "within": limit.String(), "try": try, "answered": answered, "dials": dials,
+				"closes_by_client": closes, "Err": errDesc, "pingreq_times_since_connack_us": times},
+		}
+		if answered >= need && dials == 1 && closes == 0 {
+			break
+		}
+	}
+	return res, nil
 }
 
 // the broker answers k pings and withholds the next answer; the user then calls Disconnect
@@ -1557,6 +1632,15 @@ func runC13(cfg *runCfg) error {
 		k := k
 		sys = append(sys, &sysJob{run: func() (c13SysRes, error) { return c13SysDisc(3*ms, 5*time.Second, k) }})
 	}
+	// PingInterval != Timeout, in both directions
+	sys = append(sys, &sysJob{run: func() (c13SysRes, error) { return c13SysPeer(600*ms, 250*ms, 0, 1, c13SysTO, 1) }})
+	sys = append(sys, &sysJob{run: func() (c13SysRes, error) { return c13SysPeer(30*ms, 3*time.Second, 200*ms, 5, c13SysTO, 1) }})
+	sys = append(sys, &sysJob{run: func() (c13SysRes, error) { return c13SysPeer(50*ms, 3*time.Second, 0, 5, 1500*ms, 3) }})
+	if !quick && !search {
+		sys = append(sys, &sysJob{run: func() (c13SysRes, error) { return c13SysPeer(20*ms, 2*time.Second, 150*ms, 12, c13SysTO, 1) }})
+		sys = append(sys, &sysJob{run: func() (c13SysRes, error) { return c13SysPeer(900*ms, 300*ms, 0, 2, c13SysTO, 1) }})
+		sys = append(sys, &sysJob{run: func() (c13SysRes, error) { return c13SysPeer(10*ms, 4*time.Second, 400*ms, 6, c13SysTO, 1) }})
+	}
 	var wgs sync.WaitGroup
 	for _, s := range sys {
 		s := s
@@ -1671,7 +1755,7 @@ func runC13(cfg *runCfg) error {
 	cf.result("M_sys", "c13_sys_mismatches sys_cases")
 	m.Evaluations = len(jobs) - skipped + len(sys) + 1
 	m.DistinctNontrivial = nontrivial
-	m.Rule = fmt.Sprintf("mqtt.KeepAlive driven by a scripted Client: every script up to length %d over {answered at once, answered after half an interval, never answered, failing at once with 3 different errors (two of them wrapping another context's error), parent context Canceled/DeadlineExceeded before/during the ping}, each terminal outcome after 4..%d answered pings, every one of 54 general steps (cancel before x 6 ping behaviours x cancel during) after 0-2 answered pings, %d pairs of them, %d random scripts of up to %d pings incl. non-positive interval/timeout; %d scripts against a real BaseClient over an in-memory transport with a scripted broker, %d more where the broker sends surplus PINGRESPs (duplicates, unsolicited ones between pings) or answers with zero delay (PINGRESP consumed by the reader before Transport.Write returns) before going silent; %d ReconnectClient scenarios (broker silent after k pings, also after the caller cancelled the context it passed to Connect, responsive broker soaked %s then Disconnect, peer drop followed by a healthy connection, Disconnect while a ping is unanswered); one pace run (5 answered pings at 150 ms, each must start within 500 ms of its tick, best of up to three serial tries). Non-trivial = distinct script on which the loop returned after at least 2 pings",
+	m.Rule = fmt.Sprintf("mqtt.KeepAlive driven by a scripted Client: every script up to length %d over {answered at once, answered after half an interval, never answered, failing at once with 3 different errors (two of them wrapping another context's error), parent context Canceled/DeadlineExceeded before/during the ping}, each terminal outcome after 4..%d answered pings, every one of 54 general steps (cancel before x 6 ping behaviours x cancel during) after 0-2 answered pings, %d pairs of them, %d random scripts of up to %d pings incl. non-positive interval/timeout; %d scripts against a real BaseClient over an in-memory transport with a scripted broker, %d more where the broker sends surplus PINGRESPs (duplicates, unsolicited ones between pings) or answers with zero delay (PINGRESP consumed by the reader before Transport.Write returns) before going silent; %d ReconnectClient scenarios (broker silent after k pings, also after the caller cancelled the context it passed to Connect, responsive broker soaked %s then Disconnect, peer drop followed by a healthy connection, Disconnect while a ping is unanswered, PingInterval != Timeout in both directions with an instant and with a slow-but-living broker); one pace run (5 answered pings at 150 ms, each must start within 500 ms of its tick, best of up to three serial tries). Non-trivial = distinct script on which the loop returned after at least 2 pings",
 		L, ns[len(ns)-1], nPairs, nRand, maxLen, nBase, nWire, len(sys), soak)
 	m.Distribution["out_scripts"] = nOutEnum
 	m.Distribution["env_scripts"] = nEnv
